@@ -46,8 +46,9 @@ UNITS2 = {
                  'list_iterator_remove', 'list_contains', 'list_remove', 'list_insert_sorted'], 3,
                 {'inmem': ['list_node', 'list_node_t', 'list_t', 'list_iterator_t'], 'recursive_loops': True, 'pure_calls': ['nodecmp']}),
     # fibre.c: the comparator the scheduler hands to list_insert_sorted for its timer queue (fibre_t in memory)
-    'FibreSeq': (os.path.join(vlib.VERIF, 'harness/wrap_fibre.c'), ['duetime_cmp'], 1,
-                 {'inmem': ['fibre', 'fibre_t', 'list_node', 'list_node_t'], 'flags': ['-I' + vlib.REPO]}),
+    'FibreSeq': (os.path.join(vlib.VERIF, 'harness/wrap_fibre.c'), ['duetime_cmp', 'get_next_wakeup'], 1,
+                 {'inmem': ['fibre', 'fibre_t', 'list_node', 'list_node_t', 'list_t', 'messageq_t'], 'flags': ['-I' + vlib.REPO],
+                  'externs': ['messageq_empty']}),
     # one iteration of the POSIX main loop; the clock, the scheduling pass and the sleep are the environment
     'MainLoopSeq': (os.path.join(vlib.VERIF, 'harness/wrap_mainloop.c'), ['fibre_scheduler_main_loop'], 1,
                     {'externs': ['time_now', 'fibre_scheduler_next', 'usleep'], 'flags': ['-I' + vlib.REPO]}),
@@ -93,7 +94,7 @@ def write_signatures():
     vlib.write_if_changed(SIGFILE, json.dumps(d, indent=1, sort_keys=True) + '\n')
 
 
-def signature_changes(unit):
+def signature_changes(unit, only=None):
     """differences between the interface regenerated now and the committed one ([] if none or unknown)"""
     import json
     try:
@@ -107,6 +108,8 @@ def signature_changes(unit):
     opt = UNITS2[unit][3].get('optional', ()) if unit in UNITS2 and len(UNITS2[unit]) > 3 else ()
     for k in sorted(set(exp) | set(cur)):
         if any(k.split(' ', 1)[1] == o or k.split(' ', 1)[1].startswith(o + '.') for o in opt):
+            continue
+        if only is not None and not any(k.split(' ', 1)[1] == o or k.split(' ', 1)[1].startswith(o + '.') for o in only):
             continue
         if exp.get(k) != cur.get(k):
             out.append(f'{k}: was `{exp.get(k)}` is `{cur.get(k)}`'[:400])
